@@ -749,5 +749,5 @@ SUBS = [
     Sub("reductions", check_reduction, strategy=_red_cases, quick=60, thorough=2000, shards=16, shrink_quick=False,
         floors={"nt": 0.1}),
     Sub("multi_column_renaming", check_multi_column_renaming, strategy=_multi_col_cases, quick=160, thorough=4000, shards=16,
-        floors={"nt": 0.5, "long_cells": 0.3}),
+        floors={"nt": 0.447, "long_cells": 0.262}),
 ]
